@@ -80,15 +80,25 @@ Theorem C08_native_inputs :
 Proof. split; [exact native_date|exact native_datetime]. Qed.
 Print Assumptions C08_native_inputs.
 
-(* ---- the DATE / TIMESTAMP / TIME casts agree with parse_iso on every input ---- *)
+(* ---- the DATE / TIMESTAMP casts agree with parse_iso on every input; so does the TIME
+   cast on every input except a native datetime.time, which it returns unchanged
+   (parse_time, since 58338dc) while parse_iso, DATE and TIMESTAMP treat it as no date ---- *)
 Theorem C08_casts_agree :
   forall x,
   (forall t, parse_iso x = Ok (Some t) ->
      cast_timestamp x = Ok t /\ cast_date x = Ok (date_of t) /\ cast_time x = Ok (time_of t)) /\
   (parse_iso x = Ok None ->
-     cast_timestamp x = Raise ValueError /\ cast_date x = Raise ValueError /\ cast_time x = Raise ValueError).
+     cast_timestamp x = Raise ValueError /\ cast_date x = Raise ValueError /\
+     (is_time x = false -> cast_time x = Raise ValueError)).
 Proof. exact casts_agree. Qed.
 Print Assumptions C08_casts_agree.
+
+Theorem C08_native_time :
+  forall h mi s us,
+  parse_iso (VTime h mi s us) = Ok None /\ cast_time (VTime h mi s us) = Ok (h, mi, s, us) /\
+  cast_timestamp (VTime h mi s us) = Raise ValueError /\ cast_date (VTime h mi s us) = Raise ValueError.
+Proof. exact native_time. Qed.
+Print Assumptions C08_native_time.
 
 (* ---- the calendar underneath the epoch branch: every day number is the day number of
    the civil date computed for it, which is a valid date (146097-day sweep + periodicity) ---- *)
